@@ -545,11 +545,20 @@ class ArrTr:
                 return not self.rows(e.func.value)
             if f == "np.clip" and e.args:
                 return self.rows(e.args[0])
+            if f in ("np.zeros", "np.ones", "np.zeros_like", "np.ones_like") and len(e.args) >= 1:
+                m = re.fullmatch(r"(\w+)(\.shape)?", ast.unparse(e.args[0]))
+                if m:
+                    return self.rows(ast.Name(id=m.group(1)))
             if f == "np.full" and isinstance(e.args[0], ast.Tuple) and isinstance(e.args[0].elts[0], ast.Starred):
                 m = re.fullmatch(r"(\w+)\.shape", ast.unparse(e.args[0].elts[0].value))
                 if m:
                     return self.rows(ast.Name(id=m.group(1)))
             raise pyexpr.Unsupported(f"array call {f}")
+        if isinstance(e, ast.IfExp):
+            a, b = self.rows(e.body), self.rows(e.orelse)
+            if a != b:
+                raise pyexpr.Unsupported("the branches of a conditional have different orientation")
+            return a
         if isinstance(e, ast.BinOp):
             sides = [self.rows(x) for x in (e.left, e.right) if self._is_array(x)]
             if not sides or any(s != sides[0] for s in sides):
